@@ -1,7 +1,10 @@
 /-
 Model of `python/mujoco/introspect/ast_nodes.py` (ValueType / PointerType / ArrayType and their
 `decl()` printers) and of `python/mujoco/introspect/type_parsing.py` (`parse_type`).
-Core Lean only.  Strings are `List Char` (`Str`); the driver converts at the IO boundary.
+Core Lean only.  Strings are lists of code points as natural numbers (`Str = List Nat`): the kernel
+evaluates `Nat` comparisons natively, while `Char` operations are two orders of magnitude slower there.
+The driver converts at the IO boundary.  Character constants are written as numerals with the
+character in a comment (40 `(`, 41 `)`, 42 `*`, 91 `[`, 93 `]`, 32 blank, 45 `-`, 43 `+`, 95 `_`).
 
 What is modelled, function by function (names of the Python functions in brackets):
   * `isWs`            Python `str.isspace()` = regex `\s` on `str` patterns = what `str.strip()` removes
@@ -24,12 +27,14 @@ Recursion is by fuel (string length + 1) so that the kernel can evaluate the par
 -/
 namespace MjProof.CType
 
-abbrev Str := List Char
+/-- a code point -/
+abbrev Ch := Nat
+abbrev Str := List Ch
 
 /-- the C type AST of `ast_nodes.py`.  `ValueType.nullable` and `ArrayType.nullable` are never
     printed nor set by the parser and are not modelled; `PointerType.nullable` is printed. -/
 inductive CType where
-  | value (name : String) (isConst isVolatile : Bool)
+  | value (name : Str) (isConst isVolatile : Bool)
   | pointer (inner : CType) (nullable isConst isVolatile isRestrict : Bool)
   | array (inner : CType) (extents : List Int)
   deriving DecidableEq, Repr, Inhabited
@@ -38,11 +43,23 @@ def CType.isArray : CType → Bool
   | .array _ _ => true
   | _ => false
 
+/-! ### text literals of generated tables
+
+String literals are slow to evaluate in the kernel; generated tables give every text as a numeral:
+the bytes (all below 256), big-endian, after a leading 1 (`dS 0x16d6a` = "mj"). -/
+
+def dSAux : Nat → Nat → Str → Str
+  | 0, _, acc => acc
+  | f + 1, n, acc => if n ≤ 1 then acc else dSAux f (n / 256) ((n % 256) :: acc)
+
+/-- decode a text numeral -/
+def dS (n : Nat) : Str := dSAux n n []
+
 /-! ### characters, whitespace, words -/
 
 /-- `str.isspace()` for one code point (the complete list for Unicode 15). -/
-def isWs (c : Char) : Bool :=
-  let n := c.toNat
+def isWs (c : Ch) : Bool :=
+  let n := c
   (decide (9 ≤ n) && decide (n ≤ 13)) || (decide (28 ≤ n) && decide (n ≤ 32)) || n == 0x85 || n == 0xA0 ||
   n == 0x1680 || (decide (0x2000 ≤ n) && decide (n ≤ 0x200A)) || n == 0x2028 || n == 0x2029 ||
   n == 0x202F || n == 0x205F || n == 0x3000
@@ -60,19 +77,19 @@ def splitWsGo : Str → Str → List Str
 
 def splitWs (s : Str) : List Str := splitWsGo s []
 
-/-- `' '.join(ws)` -/
+/-- `' '.join(ws)` (32 = blank) -/
 def joinSp : List Str → Str
   | [] => []
   | [w] => w
-  | w :: ws => w ++ ' ' :: joinSp ws
+  | w :: ws => w ++ 32 :: joinSp ws
 
 /-- split at the first occurrence of `c` -/
-def splitFirst (c : Char) : Str → Option (Str × Str)
+def splitFirst (c : Ch) : Str → Option (Str × Str)
   | [] => none
   | x :: xs => if x = c then some ([], xs) else (splitFirst c xs).map (fun p => (x :: p.1, p.2))
 
 /-- split at the last occurrence of `c` -/
-def splitLast (c : Char) : Str → Option (Str × Str)
+def splitLast (c : Ch) : Str → Option (Str × Str)
   | [] => none
   | x :: xs =>
     match splitLast c xs with
@@ -81,13 +98,13 @@ def splitLast (c : Char) : Str → Option (Str × Str)
 
 /-! ### integers: `int(str)` and `str(int)` -/
 
-def digitVal (c : Char) : Option Nat :=
-  let n := c.toNat
+def digitVal (c : Ch) : Option Nat :=
+  let n := c
   if 48 ≤ n ∧ n ≤ 57 then some (n - 48) else none
 
-def digitChar : Nat → Char
-  | 0 => '0' | 1 => '1' | 2 => '2' | 3 => '3' | 4 => '4'
-  | 5 => '5' | 6 => '6' | 7 => '7' | 8 => '8' | _ => '9'
+def digitChar : Nat → Ch
+  | 0 => 48 | 1 => 49 | 2 => 50 | 3 => 51 | 4 => 52
+  | 5 => 53 | 6 => 54 | 7 => 55 | 8 => 56 | _ => 57
 
 /-- decimal digits (`pd`: the previous character was a digit; `_` only between digits) -/
 def digitsAux (acc : Nat) (pd : Bool) : Str → Option Nat
@@ -96,7 +113,7 @@ def digitsAux (acc : Nat) (pd : Bool) : Str → Option Nat
     match digitVal c with
     | some d => digitsAux (acc * 10 + d) true cs
     | none =>
-      if c = '_' ∧ pd = true then
+      if c = 95 ∧ pd = true then  -- '_'
         match cs with
         | [] => none
         | c2 :: _ => if (digitVal c2).isSome then digitsAux acc false cs else none
@@ -107,8 +124,8 @@ def parseNat (s : Str) : Option Nat := digitsAux 0 false s
 /-- `int(s)` for ASCII input -/
 def parseInt (s : Str) : Option Int :=
   match strip s with
-  | '-' :: r => (parseNat r).map (fun n => - (n : Int))
-  | '+' :: r => (parseNat r).map (fun n => (n : Int))
+  | 45 :: r => (parseNat r).map (fun n => - (n : Int))   -- '-'
+  | 43 :: r => (parseNat r).map (fun n => (n : Int))     -- '+'
   | r => (parseNat r).map (fun n => (n : Int))
 
 def natDigitsAux : Nat → Nat → Str → Str
@@ -121,21 +138,21 @@ def natDigits (n : Nat) : Str := natDigitsAux (n + 1) n []
 /-- `str(n)` -/
 def intStr : Int → Str
   | .ofNat m => natDigits m
-  | .negSucc m => '-' :: natDigits (m + 1)
+  | .negSucc m => 45 :: natDigits (m + 1)
 
 /-- `''.join(f'[{n}]' for n in extents)` -/
 def extentsStr : List Int → Str
   | [] => []
-  | n :: r => '[' :: (intStr n ++ ']' :: extentsStr r)
+  | n :: r => 91 :: (intStr n ++ 93 :: extentsStr r)   -- '[' … ']'
 
 /-! ### identifiers and the `ValueType` name check -/
 
-def isIdentStart (c : Char) : Bool :=
-  let n := c.toNat
+def isIdentStart (c : Ch) : Bool :=
+  let n := c
   (decide (65 ≤ n) && decide (n ≤ 90)) || (decide (97 ≤ n) && decide (n ≤ 122)) || n == 95
 
-def isIdentChar (c : Char) : Bool :=
-  let n := c.toNat
+def isIdentChar (c : Ch) : Bool :=
+  let n := c
   isIdentStart c || (decide (48 ≤ n) && decide (n ≤ 57))
 
 /-- `[A-Za-z_][A-Za-z0-9_]*` -/
@@ -143,32 +160,71 @@ def isIdent : Str → Bool
   | [] => false
   | c :: cs => isIdentStart c && cs.all isIdentChar
 
-def kw (s : String) : Str := s.toList
+/-- code points of a string literal (specification only: constants below are written out) -/
+def kw (s : String) : Str := s.toList.map Char.toNat
 
-def kConst : Str := kw "const"
-def kVolatile : Str := kw "volatile"
-def kRestrict : Str := kw "restrict"
-def kStruct : Str := kw "struct"
-def kNullable : Str := kw "nullable"
+def kConst : Str := [99, 111, 110, 115, 116]  -- "const"
+def kVolatile : Str := [118, 111, 108, 97, 116, 105, 108, 101]  -- "volatile"
+def kRestrict : Str := [114, 101, 115, 116, 114, 105, 99, 116]  -- "restrict"
+def kStruct : Str := [115, 116, 114, 117, 99, 116]  -- "struct"
+def kNullable : Str := [110, 117, 108, 108, 97, 98, 108, 101]  -- "nullable"
 
 /-- `C_INVALID_TYPE_NAMES` -/
 def invalidNames : List Str := [
-  "auto", "break", "case", "const", "continue", "default", "do", "else",
-  "enum", "extern", "for", "goto", "if", "inline", "register", "restrict",
-  "return", "sizeof", "static", "struct", "switch", "typedef", "union",
-  "volatile", "while", "_Alignas", "_Atomic", "_Generic", "_Imaginary",
-  "_Noreturn", "_Static_assert", "_Thread_local", "__attribute__", "_Pragma"].map kw
+  [97, 117, 116, 111],  -- auto
+  [98, 114, 101, 97, 107],  -- break
+  [99, 97, 115, 101],  -- case
+  [99, 111, 110, 115, 116],  -- const
+  [99, 111, 110, 116, 105, 110, 117, 101],  -- continue
+  [100, 101, 102, 97, 117, 108, 116],  -- default
+  [100, 111],  -- do
+  [101, 108, 115, 101],  -- else
+  [101, 110, 117, 109],  -- enum
+  [101, 120, 116, 101, 114, 110],  -- extern
+  [102, 111, 114],  -- for
+  [103, 111, 116, 111],  -- goto
+  [105, 102],  -- if
+  [105, 110, 108, 105, 110, 101],  -- inline
+  [114, 101, 103, 105, 115, 116, 101, 114],  -- register
+  [114, 101, 115, 116, 114, 105, 99, 116],  -- restrict
+  [114, 101, 116, 117, 114, 110],  -- return
+  [115, 105, 122, 101, 111, 102],  -- sizeof
+  [115, 116, 97, 116, 105, 99],  -- static
+  [115, 116, 114, 117, 99, 116],  -- struct
+  [115, 119, 105, 116, 99, 104],  -- switch
+  [116, 121, 112, 101, 100, 101, 102],  -- typedef
+  [117, 110, 105, 111, 110],  -- union
+  [118, 111, 108, 97, 116, 105, 108, 101],  -- volatile
+  [119, 104, 105, 108, 101],  -- while
+  [95, 65, 108, 105, 103, 110, 97, 115],  -- _Alignas
+  [95, 65, 116, 111, 109, 105, 99],  -- _Atomic
+  [95, 71, 101, 110, 101, 114, 105, 99],  -- _Generic
+  [95, 73, 109, 97, 103, 105, 110, 97, 114, 121],  -- _Imaginary
+  [95, 78, 111, 114, 101, 116, 117, 114, 110],  -- _Noreturn
+  [95, 83, 116, 97, 116, 105, 99, 95, 97, 115, 115, 101, 114, 116],  -- _Static_assert
+  [95, 84, 104, 114, 101, 97, 100, 95, 108, 111, 99, 97, 108],  -- _Thread_local
+  [95, 95, 97, 116, 116, 114, 105, 98, 117, 116, 101, 95, 95],  -- __attribute__
+  [95, 80, 114, 97, 103, 109, 97]  -- _Pragma
+]
+
+def kSigned : Str := [115, 105, 103, 110, 101, 100]  -- "signed"
+def kUnsigned : Str := [117, 110, 115, 105, 103, 110, 101, 100]  -- "unsigned"
+def kShort : Str := [115, 104, 111, 114, 116]  -- "short"
+def kLong : Str := [108, 111, 110, 103]  -- "long"
+def kInt : Str := [105, 110, 116]  -- "int"
+def kChar : Str := [99, 104, 97, 114]  -- "char"
+def intKeywords : List Str := [kSigned, kUnsigned, kShort, kLong, kInt, kChar]
 
 /-- `_is_valid_integral_type` on the word list -/
 def validIntegral (ws : List Str) : Bool :=
-  let cnt (k : String) : Nat := ws.count (kw k)
-  let isKw (w : Str) : Bool := [kw "signed", kw "unsigned", kw "short", kw "long", kw "int", kw "char"].contains w
+  let cnt (k : Str) : Nat := ws.count k
+  let isKw (w : Str) : Bool := intKeywords.contains w
   let wild : Nat := (ws.filter (fun w => !isKw w)).length
   ws.all (fun w => isKw w || isIdent w) &&
-  !(decide (cnt "signed" + cnt "unsigned" > 1) || decide (cnt "short" > 1) || decide (cnt "long" > 2) ||
-    (decide (cnt "short" > 0) && decide (cnt "long" > 0)) ||
-    ((decide (cnt "short" > 0) || decide (cnt "long" > 0)) && decide (cnt "char" > 0)) ||
-    decide (cnt "char" + cnt "int" + wild > 1))
+  !(decide (cnt kSigned + cnt kUnsigned > 1) || decide (cnt kShort > 1) || decide (cnt kLong > 2) ||
+    (decide (cnt kShort > 0) && decide (cnt kLong > 0)) ||
+    ((decide (cnt kShort > 0) || decide (cnt kLong > 0)) && decide (cnt kChar > 0)) ||
+    decide (cnt kChar + cnt kInt + wild > 1))
 
 /-- `VALID_TYPE_NAME_PATTERN.fullmatch(' '.join(ws))` -/
 def validPattern (ws : List Str) : Bool :=
@@ -186,17 +242,17 @@ def validWords (ws : List Str) : Bool :=
 /-! ### the parser -/
 
 /-- the one function-pointer type that `type_parsing.py` special-cases -/
-def special : Str := kw "void *(*)(void *)"
-def specialName : String := "void *(*)(void *)"
+def special : Str := [118, 111, 105, 100, 32, 42, 40, 42, 41, 40, 118, 111, 105, 100, 32, 42, 41]  -- "void *(*)(void *)"
+def specialName : Str := special
 
 /-- `(\[[^\]]+\]\s*)+\Z` anchored at the start of `s`; returns the bracket contents -/
 def groups : Nat → Str → Option (List Str)
   | 0, _ => none
   | f + 1, s =>
     match s with
-    | '[' :: r =>
-      let content := r.takeWhile (· != ']')
-      match r.dropWhile (· != ']') with
+    | 91 :: r =>   -- '[' then the run up to the next ']' (93)
+      let content := r.takeWhile (· != 93)
+      match r.dropWhile (· != 93) with
       | _ :: r3 =>
         if content.isEmpty then none else
         let r4 := r3.dropWhile isWs
@@ -208,7 +264,7 @@ def groups : Nat → Str → Option (List Str)
 def findArr : Str → Option (Str × List Str)
   | [] => none
   | c :: cs =>
-    match (if c = '[' then groups (cs.length + 2) (c :: cs) else none) with
+    match (if c = 91 then groups (cs.length + 2) (c :: cs) else none) with
     | some g => some ([], g)
     | none => (findArr cs).map (fun p => (c :: p.1, p.2))
 
@@ -235,7 +291,7 @@ def parsePtrAux : Nat → Str → Option CType → Option CType
   | 0, _, _ => none
   | f + 1, s, innermost =>
     if s = special then some (.value specialName false false) else
-    match splitLast '*' s with
+    match splitLast 42 s with   -- rfind('*')
     | some (pre, post) =>
       match ptrQuals (splitWs post) with
       | none => none
@@ -248,7 +304,7 @@ def parsePtrAux : Nat → Str → Option CType → Option CType
       if innermost.isSome then none else
       match valQuals (splitWs s) with
       | none => none
-      | some (ws, c, v) => if validWords ws then some (.value (String.ofList (joinSp ws)) c v) else none
+      | some (ws, c, v) => if validWords ws then some (.value (joinSp ws) c v) else none
 
 def parsePtr (s : Str) (innermost : Option CType) : Option CType := parsePtrAux (s.length + 1) s innermost
 
@@ -267,10 +323,10 @@ def parseNest : Nat → Str → Option CType → Option CType
   | 0, _, _ => none
   | f + 1, s, acc =>
     if s = special then parseLevel s acc else
-    match splitFirst '(' s with
-    | none => if s.contains ')' then none else parseLevel s acc
+    match splitFirst 40 s with   -- find('(') ; 41 = ')'
+    | none => if s.contains 41 then none else parseLevel s acc
     | some (pre, rest) =>
-      match splitLast ')' rest with
+      match splitLast 41 rest with
       | none => none
       | some (mid, suf) =>
         match parseLevel (pre ++ suf) acc with
@@ -285,7 +341,7 @@ def parseType (s : Str) : Option CType :=
 /-- `parse_function_return_type(s)`: `parse_type(s[:s.find('(')])` (Python's `find` returns -1 when
     there is no `(`, which drops the last character) -/
 def parseReturnType (s : Str) : Option CType :=
-  match splitFirst '(' s with
+  match splitFirst 40 s with
   | some (pre, _) => parseType pre
   | none => parseType s.dropLast
 
@@ -295,12 +351,12 @@ def qualWords (c v : Bool) : List Str := (if c then [kConst] else []) ++ (if v t
 
 /-- `t.decl(d)` (`d = []` stands for `None` / the empty string, which Python treats alike) -/
 def declWith : CType → Str → Str
-  | .value name c v, d => joinSp (qualWords c v ++ [name.toList] ++ (if d.isEmpty then [] else [d]))
+  | .value name c v, d => joinSp (qualWords c v ++ [name] ++ (if d.isEmpty then [] else [d]))
   | .array inner exts, d => declWith inner (d ++ extentsStr exts)
   | .pointer inner n c v r, d =>
-    let p := joinSp ([['*']] ++ (if n then [kNullable] else []) ++ qualWords c v ++
+    let p := joinSp ([[42]] ++ (if n then [kNullable] else []) ++ qualWords c v ++
                      (if r then [kRestrict] else []) ++ (if d.isEmpty then [] else [d]))
-    declWith inner (if inner.isArray then '(' :: (p ++ [')']) else p)
+    declWith inner (if inner.isArray then 40 :: (p ++ [41]) else p)
 
 /-- `str(t)` = `t.decl()` -/
 def decl (t : CType) : Str := declWith t []
@@ -309,9 +365,9 @@ def decl (t : CType) : Str := declWith t []
 
 /-- a `ValueType` name that the parser can produce: single-spaced words that pass the
     `ValueType.__init__` check, none of which is a qualifier -/
-def wfName (name : String) : Bool :=
-  let ws := splitWs name.toList
-  name.toList == joinSp ws && validWords ws && !ws.contains kConst && !ws.contains kVolatile
+def wfName (name : Str) : Bool :=
+  let ws := splitWs name
+  name == joinSp ws && validWords ws && !ws.contains kConst && !ws.contains kVolatile
 
 def WF : CType → Bool
   | .value name _ _ => wfName name
@@ -323,15 +379,13 @@ def specialType : CType := .value specialName false false
 
 /-! ### canonical text form used by the line protocol -/
 
-def hexDigit (n : Nat) : Char := if n < 10 then Char.ofNat (48 + n) else Char.ofNat (87 + n)
-
-def b2c (b : Bool) : Char := if b then '1' else '0'
+def b2c (b : Bool) : Ch := if b then 49 else 48
 
 /-- prefix form: `V<c><v>"name"`, `P<n><c><v><r>(inner)`, `A[e1,e2](inner)` -/
 def show_ : CType → Str
-  | .value name c v => 'V' :: b2c c :: b2c v :: '"' :: name.toList ++ ['"']
-  | .pointer inner n c v r => 'P' :: b2c n :: b2c c :: b2c v :: b2c r :: '(' :: show_ inner ++ [')']
+  | .value name c v => 86 :: b2c c :: b2c v :: 34 :: name ++ [34]
+  | .pointer inner n c v r => 80 :: b2c n :: b2c c :: b2c v :: b2c r :: 40 :: show_ inner ++ [41]
   | .array inner exts =>
-    'A' :: '[' :: (",".toList.intercalate (exts.map intStr)) ++ ']' :: '(' :: show_ inner ++ [')']
+    65 :: 91 :: (List.intercalate [44] (exts.map intStr)) ++ 93 :: 40 :: show_ inner ++ [41]
 
 end MjProof.CType
